@@ -322,6 +322,8 @@ def _access_log_rules(ck, tu):
       entry.start = addr1  only where entry.start == addr2 is known,   new bound is a max/min with the old one;
     every path records the range (extension or memory_access_list_add(access, addr1, addr2)); add_mem_read/add_mem_write pass
     (addr, addr + size) to the list of their own kind."""
+    ck.rule("R7", "a typed access through the page pointer lies inside the page (linear bound on offset + width/8)", floor=2)
+    typed_access_bound_rules(ck, tu, "R7")
     ck.rule("R6", "the access log never loses bytes: entries are extended only by exact concatenation (or max/min), every path records the range", floor=3)
     f = tu.func("add_range_to_list")
     ck.need(f is not None and len(f.params) == 3, "add_range_to_list(access, addr1, addr2) not found")
@@ -385,3 +387,63 @@ def _access_log_rules(ck, tu):
                 pa, ps = g.params[1]["name"], g.params[2]["name"]
                 ok = lst in args[0] and args[1] == pa and args[2] in ("%s+%s" % (pa, ps), "%s+%s" % (ps, pa))
         ck.ob("R6", "%s:range" % fn_, ok, VMC, "%s must record [addr, addr + size) in %s" % (fn_, lst))
+
+
+def typed_access_bound_rules(ck, tu, RID):
+    """A multi-byte access through the page's host pointer (`*((uintN_t*)addr)` in memory_page_read / memory_page_write) lies inside the
+    page: it is dominated by a test that says  (ad - page.ad) + my_size/8 <= page.size.  Decided on linear forms of the clang AST, with
+    single-assignment locals and a boolean helper `static int fits(...) { ...; return <cmp>; }` expanded: an inclusive `last = off +
+    n - 1; last < size` is the same test, `last <= size` lets an access whose last byte is one past the page through (no fault, one
+    byte read or written beyond the host buffer)."""
+    for fname in ("memory_page_read", "memory_page_write"):
+        f = tu.func(fname)
+        cfg = f.cfg()
+        ldefs = cast.local_defs(f)
+        # the typed dereferences: switch cases reading / writing through a cast of `addr`
+        derefs = [nd for nd in cfg.nodes if nd.ast is not None and any(
+            n.get("kind") == "UnaryOperator" and n.get("opcode") == "*" and any(x.get("kind") == "CStyleCastExpr" for x in cast.walk(n)) and "addr" in cast.text_names(n)
+            for n in cast.walk(nd.ast))]
+        if not derefs:
+            ck.ob(RID, "%s:typed-access-found" % fname, False, VMC, "no typed access through the page pointer found (extractor blind)")
+            continue
+        sn = derefs[0]
+        best = None
+        seen = []
+        for did in cfg.dominators()[sn.id]:
+            dn = cfg.nodes[did]
+            if dn.kind != "test":
+                continue
+            av = lambda x, did=did: x.id == did
+            tsucc = [x for (x, lab) in cfg.succ[did] if lab is True]
+            on_true = bool(tsucc) and (tsucc[0] == sn.id or cfg.can_reach(tsucc[0], sn.id, avoid=av))
+            fsucc = [x for (x, lab) in cfg.succ[did] if lab is False]
+            on_false = bool(fsucc) and (fsucc[0] == sn.id or cfg.can_reach(fsucc[0], sn.id, avoid=av))
+            if not (on_true and not on_false):
+                continue
+            test, defs = dn.ast, dict(ldefs)
+            t0 = cast.strip(test)
+            if t0.get("kind") == "CallExpr":
+                ih = cast.inline_bool_helper(tu, t0)
+                if ih is None:
+                    continue
+                test, hd = ih
+                defs.update(hd)
+            lr = cast.c_less_than(test, True, defs)
+            if lr is None:
+                continue
+            (lt, lc), (rt, rc) = lr
+            d = dict(lt)
+            for k_, v_ in rt:
+                d[k_] = d.get(k_, 0) - v_
+            d = dict((k_, v_) for k_, v_ in d.items() if v_)
+            keys = sorted(d.items())
+            seen.append((keys, lc - rc))
+            size_terms = [k_ for k_, v_ in d.items() if v_ == -1 and (k_.endswith("->size") or k_.endswith(".size"))]
+            width_terms = [k_ for k_, v_ in d.items() if v_ == 1 and "my_size" in k_]
+            if size_terms and width_terms:
+                best = (d, lc - rc)
+        ok = best is not None and best[1] >= -1
+        ck.ob(RID, "%s:typed-access-inside-page" % fname, ok, VMC,
+              "the typed access through the page pointer is guarded by %s (as `sum + c < 0`): it must say offset + my_size/8 <= page size, "
+              "i.e. c >= -1; with c = %s an access whose last byte lies one past the end of the page is performed (no fault, one byte beyond "
+              "the host buffer)" % (seen[-2:], best[1] if best else "?"))
